@@ -3,6 +3,7 @@ import importlib
 
 from ..tables import core, printing
 from .. import gen, scratch
+from . import printobl
 
 LEVEL = 'other'
 
@@ -76,17 +77,24 @@ def check_production(g, shapes, pr, prod):
         lens = (None,)
         if any(sh[0] == 'list' for sh in choice.values()):
             lens = (0, 1, 2, 3)
-        for ll in lens:
+        for ll, commented in [(l_, c_) for l_ in lens for c_ in (False, True)]:
             try:
-                run = core.run_action(g, prod, choice, shapes=shapes, list_len=ll)
+                if commented:
+                    # every terminal of the production carries a captured block and line comment
+                    hidden = dict((i, printobl._comment_tokens(i)) for i, s_ in enumerate(prod.prod, 1) if s_ in g.terminals)
+                    if not hidden:
+                        continue
+                    run = core.run_action(g, prod, choice, shapes=shapes, list_len=ll, with_comments=True, hidden=hidden)
+                else:
+                    run = core.run_action(g, prod, choice, shapes=shapes, list_len=ll)
             except core.ActionRaised:
                 continue
             v = run.value
             if not isinstance(v, g.asttypes_mod.Node) or getattr(type(v), '__hole__', False):
                 continue
             kind = core.base_name(v)
-            label = '%s [%s]%s' % (prod, ','.join('%d:%s' % (k + 1, sh[-1]) for k, sh in sorted(choice.items())),
-                                   '' if ll is None else ' len=%d' % ll)
+            label = '%s [%s]%s%s' % (prod, ','.join('%d:%s' % (k + 1, sh[-1]) for k, sh in sorted(choice.items())),
+                                     '' if ll is None else ' len=%d' % ll, ' +comments' if commented else '')
             for s in INDENTS:
                 probs, text = check_node(pr, run, s, kind)
                 runs += 1
@@ -96,6 +104,43 @@ def check_production(g, shapes, pr, prod):
                     if not text.endswith('\n') or text.endswith('\n\n'):
                         out.append((label + ' indent=%r' % s, 'non-empty output does not end with exactly one newline: %r' % text[-6:]))
     return runs, out
+
+
+def optional_concrete(imod):
+    """Executable form of the OptionalNewline contract: replays a failed obligation on the real handler."""
+    import itertools
+    from ..e1run import Concrete
+
+    class Disp(object):
+        def __init__(self, nl, ind):
+            self.newline_str, self.indent_str = nl, ind
+
+    def call(a):
+        own, dind, nl, level, before, after, prev = a
+        inst = imod.Indentator(own)
+        inst._level = level
+        out = [tuple(f) for f in inst.layout_handler_newline_optional(Disp(nl, dind), None, before, after, prev)]
+        return out, inst._level
+
+    def post(a, r):
+        own, dind, nl, level, before, after, prev = a
+        if isinstance(r, Exception):
+            return 'no exception'
+        out, lv = r
+        ind = (dind if own is None else own) * level
+        supplied = any(x is not None and y for x, y in (
+            (before, before is not None and before[-len(nl):] in ('\r', '\n', nl)), (after, after is not None and after[:len(nl)] in ('\r', '\n', nl)),
+            (prev, prev is not None and prev[-len(nl):] in ('\r', '\n', nl))))
+        want = ([] if supplied else [(nl, 0, 0, None, None)]) + ([(ind, None, None, None, None)] if ind else [])
+        if out != want or lv != level:
+            return 'fragments %r, level %d' % (want, level)
+        return None
+
+    def inputs(tier, seed):
+        return itertools.product((None, '  ', ''), ('\t',), ('\n', '\r\n', '\r'), (0, 1, 2), (None, '', 'x', '// c', '}'),
+                                 (None, '', 'x', '}', '\n', '\nx', '\r\nx', '\rx'), (None, '', 'x', '  ', '\n', 'x\n', 'x\r\n', 'x\r'))
+    return Concrete(imod.__name__ + ':Indentator.layout_handler_newline_optional', call, post, inputs,
+                    bound='the finite shapes of the contract x level 0..2 x 3 own indentation strings')
 
 
 # ---- independent depth scanner for whole outputs (bounded stand-in oracle) -------------------
@@ -225,7 +270,8 @@ def main(run, tier):
     import contracts.indentation as ci
     imod = importlib.import_module(ci.MODULE)
     cs, lemmas, env = ci.build(imod)
-    verify_functions(run, cs, dict((c.qualname, c) for c in cs), {}, tier=tier, both=(tier == 'thorough'))
+    verify_functions(run, cs, dict((c.qualname, c) for c in cs), {ci.MODULE + ':Indentator.layout_handler_newline_optional': optional_concrete(imod)},
+                     tier=tier, both=(tier == 'thorough'))
     # ---- bounded: whole programs
     es5 = importlib.import_module('calmjs.parse.parsers.es5')
     unparsers = importlib.import_module('calmjs.parse.unparsers.es5')
@@ -271,8 +317,9 @@ def main(run, tier):
     run.trust('children print relative to the level they start at and restore it (induction hypothesis = O-depth of their '
               'own productions)', 'Lexer (token boundaries of the output) in the bounded oracle only')
     run.assume('lines that continue a multi-line string/comment token are exempt (holes are atoms in the E2 runs)',
-               'Indentator.layout_handler_newline_optional and walker.process_layouts are exercised for real in every run '
-               'but have no SMT contract (E1 covers indent/dedent/_generate_indents/layout_handler_newline)')
+               'walker.process_layouts is exercised for real in every run but has no SMT contract; '
+               'Indentator.layout_handler_newline_optional: surrounding texts range over a finite set of shapes, text token in front '
+               'assumed not to end in a line break (level and indentation strings symbolic)')
 
 
 def replay(data):
